@@ -137,7 +137,8 @@ def symbolic():
         I('and', 'and R9, R9, R8', rd=9, rs1=9, rs2=8), I('xor', 'xor R8, R8, x9', rd=8, rs1=8, rs2=9), I('or', 'or x8, R8, R9', rd=8, rs1=8, rs2=9),
         I('slli', 'slli R8, R8, S3', rd=8, rs1=8, shamt=3), I('srli', 'srli R8, R8, S3', rd=8, rs1=8, shamt=3), I('srai', 'srai R9, R9, 3', rd=9, rs1=9, shamt=3),
         I('slli', 'slli RA, RA, S3', rd=1, rs1=1, shamt=3), I('lui', 'lui R8, K4', rd=8, imm=4), I('lui', 'lui RA, K16', rd=1, imm=16),
-        I('beq', 'beq R8, x0, K16', rs1=8, rs2=0, imm=16), I('bne', 'bne R9, zero, K4', rs1=9, rs2=0, imm=4), I('jal', 'jal x0, K16', rd=0, imm=16), I('jal', 'jal RA, K16', rd=1, imm=16),
+        # (a NAME as branch / jump target is an absolute position, i.e. a layout-dependent operand: exempt like labels, so no `beq R8, x0, K16` here)
+        I('beq', 'beq R8, x0, 16', rs1=8, rs2=0, imm=16), I('bne', 'bne R9, zero, 4', rs1=9, rs2=0, imm=4), I('jal', 'jal RA, 16', rd=1, imm=16),
         I('sub', 'neg R8, R9', rd=8, rs1=0, rs2=9),
     ]
     for v, t in ((5, 'K4 + 1'), (4, 'K4'), (16, 'K16'), (-1, 'KM1'), (0x4000, 'K4 << 12'), (0x4004, '(K4 << 12) + K4')):
